@@ -8,14 +8,15 @@ From Echo Require Import Base.Sx.
 Import ListNotations.
 Open Scope Z_scope.
 
-Inductive val := VZ (z : Z) | VS (s : str).
+Inductive val := VZ (z : Z) | VS (s : str) | VL (l : list val).     (* VL: a slice handed around as a value (the keys an extractor found) *)
 Definition val_eqb (a b : val) : bool :=
   match a, b with
   | VZ x, VZ y => x =? y
   | VS x, VS y => str_eqb x y
   | _, _ => false
   end.
-Definition as_z (v : val) : Z := match v with VZ z => z | VS _ => 0 end.
+Definition as_z (v : val) : Z := match v with VZ z => z | _ => 0 end.
+Definition as_l (v : val) : list val := match v with VL l => l | _ => [] end.
 
 Inductive cmp := CLt | CLe | CGt | CGe | CEq | CNe.
 
@@ -39,8 +40,11 @@ Inductive stmt :=
 | SRet (es : list expr)
 | SEmit (tag : string) (args : list expr)
 | SCall (xs : list string) (tag : string) (args : list expr)
-| SRange (x : string) (l : string) (body : list stmt)     (* for _, x := range l { body } over the list cell l *)
-| SBreak.
+| SRange (x : string) (l : string) (body : list stmt)     (* for _, x := range l { body }: l is a local holding a slice, else a list cell *)
+| SBreak
+| SCont
+| SCallP (xs : list string) (p : string) (args : list expr).   (* xs := p(args) for a function of the environment that is a fixed
+                                                                  (per request) function of its arguments: results from [pred], the call is recorded *)
 
 Definition env := list (string * val).
 Fixpoint get (m : env) (x : string) : val :=
@@ -56,14 +60,14 @@ Fixpoint getl (m : list (string * list val)) (x : string) : list val :=
 Record state := { locals : env; fields : env; lists : list (string * list val);
                   events : list (string * list val); inputs : list (list val) }.
 
-Inductive ctl := Next | Ret (vs : list val) | Brk.
+Inductive ctl := Next | Ret (vs : list val) | Brk | Cont.
 
 Section Interp.
 Variable sym : string -> val.
 Variable pred : string -> list val -> val.
 
 Definition b2v (b : bool) : val := VZ (if b then 1 else 0).
-Definition truthy (v : val) : bool := match v with VZ z => negb (z =? 0) | VS _ => false end.
+Definition truthy (v : val) : bool := match v with VZ z => negb (z =? 0) | _ => false end.
 
 Fixpoint eval (e : expr) (st : state) : val :=
   match e with
@@ -100,6 +104,7 @@ Fixpoint range_loop (run_body : state -> state * ctl) (x : string) (vs : list va
   | v :: rest =>
       match run_body (set_local st x v) with
       | (st2, Next) => range_loop run_body x rest st2
+      | (st2, Cont) => range_loop run_body x rest st2
       | (st2, Brk) => (st2, Next)
       | (st2, Ret w) => (st2, Ret w)
       end
@@ -118,6 +123,11 @@ Fixpoint exec_s (results : list string) (s : stmt) (st : state) {struct s} : sta
   | SRet [] => (st, Ret (map (get (locals st)) results))
   | SRet es => (st, Ret (map (fun e => eval e st) es))
   | SBreak => (st, Brk)
+  | SCont => (st, Cont)
+  | SCallP xs p args =>
+      let vals := map (fun a => eval a st) args in
+      ({| locals := assign xs (as_l (pred p vals)) (locals st); fields := fields st; lists := lists st;
+          events := events st ++ [(p, vals)]; inputs := inputs st |}, Next)
   | SIf c t e =>
       (fix go (l : list stmt) (st : state) {struct l} : state * ctl :=
          match l with
@@ -136,7 +146,7 @@ Fixpoint exec_s (results : list string) (s : stmt) (st : state) {struct s} : sta
                         | (st', Next) => go b' st'
                         | other => other
                         end
-           end) body st') x (getl (lists st) l) st
+           end) body st') x (match get (locals st) l with VL vs => vs | _ => getl (lists st) l end) st
   end.
 
 Fixpoint exec (results : list string) (l : list stmt) (st : state) : state * ctl :=
@@ -166,7 +176,7 @@ Lemma exec_app results l1 l2 st :
 Proof.
   revert st. induction l1 as [|x r IH]; intros st; cbn [app exec].
   - reflexivity.
-  - destruct (exec_s results x st) as [st' [| vs |]]; [apply IH | reflexivity | reflexivity].
+  - destruct (exec_s results x st) as [st' [| vs | |]]; [apply IH | reflexivity | reflexivity | reflexivity].
 Qed.
 End Interp.
 
@@ -183,4 +193,4 @@ Fixpoint first_range (l : list stmt) : nat :=
 
 (* symbolic evaluation of a translated body: as far as the state decides *)
 Ltac goloop_eval := repeat (cbn [exec exec_s eval get put getl assign set_local locals fields lists events inputs String.eqb Ascii.eqb Bool.eqb
-                                 map tl app negb andb orb fst snd as_z val_eqb]; rewrite ?truthy_b2v).
+                                 map tl app negb andb orb fst snd as_z as_l val_eqb]; rewrite ?truthy_b2v).
